@@ -36,17 +36,17 @@ Proof. intros k g t LI P. rewrite (perft_any_schedule k g t P). apply perft_exac
 From Coq Require Import String.
 (* at the console: the `perft N` command (N >= 1) of the main loop leaves the engine state alone and reports, for every position satisfying the
    invariant, the rules' count; the per-move lines it prints for N >= 2 add up to that total *)
-Theorem C14_perft_command_reports_the_rules_count : forall extra u line input t r d,
+Theorem C14_perft_command_reports_the_rules_count : forall extra dl u line input t r d,
   legal_inv (u_game u) ->
   Fen.trim line <> EmptyString -> lower_str (first_token (Fen.trim line)) = "perft"%string -> rest_tokens (Fen.trim line) = t :: r ->
   t <> "simple"%string -> parse_uint 256 t = Some d -> (1 <= d)%N ->
   exists lines total,
-    uci_step extra u line input = (u, [OPerft d lines total], None, input, Continue) /\
+    uci_step extra dl u line input = (u, [OPerft d lines total], None, input, Continue) /\
     Z.of_N total = spec_perft d (u_game u) /\ ((2 <= d)%N -> sumN (map snd lines) = total).
 Proof.
-  intros extra u line input t r d LI NE CM RT NS PU D.
+  intros extra dl u line input t r d LI NE CM RT NS PU D.
   exists (perft_lines d (u_game u)), (perft_n d (u_game u)). split; [|split].
-  - exact (step_perft extra u line input t r d NE CM RT NS PU D).
+  - exact (step_perft extra dl u line input t r d NE CM RT NS PU D).
   - apply perft_n_exact; assumption.
   - apply perft_lines_sum.
 Qed.
